@@ -84,6 +84,11 @@ CHECKS["C17"] = dict(engine="ConfigRoundTrip", ref="3 (C17), 8",
     note="This is the property where TLA+ contributes least: TLC is the enumerator and the holder of the equality oracle; serde_yaml and humantime are only observed. One concrete value per class.",
     technique="TLA+ enumeration of configurations by value class, render + parse with the real code, TLC judgement of key-wise equality")
 
+CHECKS["C19"] = dict(engine="Render", ref="3 (C19)",
+    text="specs/Render.tla composes the matcher of specs/DiffAlgo.tla with the hunk assembler of the diff renderer (unmatched_start / unexpected_start / flush, one action per branch) and TLC checks that every unmatched expectation and every unexpected line of every result the matcher can produce (3x2 quick: 5039 inputs, 78 distinct shapes; 3x3 thorough) appears in exactly one hunk, in order, and that a result without differences yields no hunk. Every input is concretised through the real rules in two of 8 text families (ASCII, multi-byte, wide CJK, trailing ASCII blanks, trailing Unicode whitespace, control bytes, 10 000-character lines, empty lines), validated by the real code into an Outcome, combined with a second outcome of another result kind (success, invalid exit code, internal error, timeout, skipped) and rendered by all five renderers (pretty colour / mono with 0, 1, 5 surrounding lines and relative / absolute line numbers up to 10^5, diff, json, yaml; Markdown / Cram, both escapers, with / without location). TLC judges every record: a rendering is returned, human renderings contain every unmatched expectation and unexpected line (diff: exactly the expected -/+ lines in order) and no section for a passed test, json / yaml are well-formed with one entry per outcome and its result kind.",
+    note="Trusted: TLC; 'shown' is a substring / line-sequence comparison done by the harness. Valid UTF-8 text only.",
+    technique="TLA+ spec of the hunk assembler composed with the matcher spec, TLC check on all reachable diff shapes, shapes replayed through the five real renderers, TLC judgement of every record")
+
 NOT_YET = {
 }
 
@@ -136,6 +141,7 @@ def main():
             {"name": "Generate", "path": "specs/Generate.tla", "serves_properties": ["C09"], "kind_free_text": "line-class model of command output and its collisions with document syntax; MC_Generate (enumeration), GenerateTrace (judgement of real generate;parse;validate runs)"},
             {"name": "ConfigLayers", "path": "specs/ConfigLayers.tla", "serves_properties": ["C16"], "kind_free_text": "layering model of configuration (Merge, Effective, PrecedenceOK), MC_ConfigLayers, ConfigTrace"},
             {"name": "ConfigRoundTrip", "path": "specs/ConfigRoundTrip.tla", "serves_properties": ["C17"], "kind_free_text": "value-class enumeration of configurations and the round-trip predicate; MC_ConfigRoundTrip, ConfigRoundTripTrace"},
+            {"name": "Render", "path": "specs/Render.tla", "serves_properties": ["C19"], "kind_free_text": "hunk assembler of the diff renderer composed with DiffAlgo; MC_Render (ShowsAll + GEN), RenderTrace (judgement of real renderings)"},
             {"name": "Rules", "path": "specs/Rules.tla", "serves_properties": ["C04"],
              "kind_free_text": "TLA+ reference semantics of the expectation kinds; MC_Rules (enumeration + sanity), RulesTrace (re-evaluation of implementation answers)"},
         ],
